@@ -177,6 +177,9 @@ def run(tier: str) -> int:
                 r0 = recv.get_sql(ctx_ns)
                 rep_t = recv.replace_table(told, tnew)
                 r_rep = rep_t.get_sql(ctx_ns)
+                # a second look at the replaced term (its field / table walk, then another rendering): it is a finished value, not a one-shot
+                list(rep_t.fields_()), rep_t.tables_
+                r_rep2 = rep_t.get_sql(ctx_ns)
                 r1 = recv.get_sql(ctx_ns)
                 r_ref = f(tnew, O).get_sql(ctx_ns)
             except Exception as ex:  # noqa
@@ -185,6 +188,10 @@ def run(tier: str) -> int:
             events.append({"tid": len(events), "rep": toks(r_rep, "generic"), "ref": toks(r_ref, "generic"), "recv0": toks(r0, "generic"),
                            "recv1": toks(r1, "generic"), "oldnames": ["told", "ao"]})
             meta.append(("term", tname, pname, r_rep, r_ref))
+            if r_rep2 != r_rep:
+                events.append({"tid": len(events), "rep": toks(r_rep2, "generic"), "ref": toks(r_ref, "generic"), "recv0": toks(r0, "generic"),
+                               "recv1": toks(r1, "generic"), "oldnames": ["told", "ao"]})
+                meta.append(("term", tname, pname + " (second rendering of the replaced term)", r_rep2, r_ref))
         st, pg = stmt_templates()
         for d, Q in core.query_classes().items():
             if tier == "quick" and d in ("mssql", "oracle"):
@@ -203,6 +210,7 @@ def run(tier: str) -> int:
                     r0 = str(recv)
                     rep_q = recv.replace_table(told, tnew)
                     r_rep = str(rep_q)
+                    r_rep2 = str(rep_q)
                     r1 = str(recv)
                     r_ref = str(f(Q, tnew, O))
                 except Exception as ex:  # noqa
@@ -212,6 +220,10 @@ def run(tier: str) -> int:
                 events.append({"tid": len(events), "rep": toks(r_rep, d), "ref": toks(r_ref, d), "recv0": toks(r0, d), "recv1": toks(r1, d),
                                "oldnames": ["told", "ao"]})
                 meta.append(("stmt", sname, pname + "/" + d, r_rep, r_ref))
+                if r_rep2 != r_rep:
+                    events.append({"tid": len(events), "rep": toks(r_rep2, d), "ref": toks(r_ref, d), "recv0": toks(r0, d), "recv1": toks(r1, d),
+                                   "oldnames": ["told", "ao"]})
+                    meta.append(("stmt", sname, pname + "/" + d + " (second rendering of the replaced statement)", r_rep2, r_ref))
     results = tlc.judge_shards("J_Replace", "INIT Init\nNEXT Next\n", events, shard=max(100, len(events) // 16 + 1))
     rep.add_tlc(results)
     if sum(max(x.distinct - 1, 0) for x in results) != len(events):
